@@ -805,6 +805,13 @@ func main() {
 		runCloneBase(*repo, *out)
 		return
 	}
+	if *which == "genumvalues" {
+		if *out == "" {
+			*out = "../lean/Generated/GoGenumValues.lean"
+		}
+		runGenumValues(*repo, *out)
+		return
+	}
 	sp := specs[*which]
 	if sp == nil {
 		fail("unknown -spec %q", *which)
